@@ -303,6 +303,15 @@ Proof.
     apply Out. apply (Cl h (fun F => F) d rk h'); [exact (proj2 (Lst k h Hin))|exact Hr].
 Qed.
 
+Corollary reassign_ids_other_docs d dB s s' (r : unit + exn) : WF s -> Sync s -> d <> dB ->
+  reassign_ids d s = (s', r) ->
+  (forall y, parent s y = Some dB -> get_elem s' y = get_elem s y) /\ get_doc s' dB = get_doc s dB.
+Proof.
+  intros W Sy Hd H.
+  pose proof (reassign_ids_local dB (in_doc s dB) s d s s' r (fun y Hy => Hy) Hd W (Inv_start s dB W Sy) H) as Hi.
+  split; [intros y Hy; apply (iv_el _ _ _ _ Hi); exact Hy|apply (iv_doc _ _ _ _ Hi)].
+Qed.
+
 (* ---------- histories that include reassignIds ----------
    A history of successful extended calls (so that G = WF /\ Sync /\ ObjDisjoint holds at every call, Heap/Joint.v) in which no
    call names an element of dB, no call has dB as its document argument and reassignIds is called on other documents only
